@@ -795,6 +795,155 @@ fn bump(counts: &mut BTreeMap<String, usize>, key: &str) -> bool {
     *n <= 20
 }
 
+/// Receivers of the pattern sweep: every word over {x,y,h} up to 5 letters, every word over
+/// {日,本,語} up to 3, and a few texts whose ends carry whole, permuted and partial occurrences.
+fn pattern_sweep_receivers() -> Vec<Value> {
+    fn words(alpha: &[char], max: usize) -> Vec<String> {
+        let mut out = vec![String::new()];
+        let mut last = vec![String::new()];
+        for _ in 0..max {
+            let mut next = Vec::new();
+            for w in &last {
+                for c in alpha {
+                    let mut t = w.clone();
+                    t.push(*c);
+                    next.push(t);
+                }
+            }
+            out.extend(next.iter().cloned());
+            last = next;
+        }
+        out
+    }
+    let mut v: Vec<String> = words(&['x', 'y', 'h'], 5);
+    v.extend(words(&['日', '本', '語'], 3).into_iter().skip(1));
+    for s in ["--> a-b <--", "->->a->b->->", "xyxyhixyxy", "yxhixy", "xyhxyhxy", "abcabcXabcabc", "cabXbca", "日本日本語本日本", "éàéàzàé", "\r\n\r\nline\n\r"] {
+        v.push(s.to_string());
+    }
+    v.into_iter().map(|s| Value::from(s.as_str())).collect()
+}
+
+/// The pattern-taking string built-ins over the sweep receivers x multi-character patterns: whole
+/// occurrences at the ends x0..3, permuted / partial occurrences, pattern characters in the middle
+/// only, the empty pattern, patterns longer than the receiver, receiver == pattern^n. Every cell is
+/// checked against `pat_law` on the implementation; the cells over words of <= 4 (trim family) /
+/// <= 3 letters (the others) always go to the model.
+fn pattern_sweep_cells(recvs: &[Value], sweep_start: usize, has: &dyn Fn(BK, &str) -> bool) -> Vec<Cell> {
+    let mut out = Vec::new();
+    for ri in sweep_start..recvs.len() {
+        let s = recvs[ri].as_str().unwrap_or("");
+        let n = s.chars().count();
+        let ascii_word = s.chars().all(|c| matches!(c, 'x' | 'y' | 'h'));
+        let cjk_word = !s.is_empty() && s.chars().all(|c| matches!(c, '日' | '本' | '語'));
+        let pats: Vec<&str> = if ascii_word {
+            vec!["", "x", "y", "xx", "xy", "yx", "yy", "xyx", "hxy"]
+        } else if cjk_word {
+            vec!["", "日", "日本", "本日", "語日本"]
+        } else {
+            vec!["", "->", ">-", "-", "xy", "yx", "abc", "cab", "bc", "日本", "本日", "éà", "àé", "\r\n", "\n\r"]
+        };
+        for p in pats {
+            let pl = p.chars().count();
+            let small = pl <= 2 || !ascii_word;
+            for name in ["trim", "trim_start", "trim_end"] {
+                if has(BK::Filter, name) {
+                    let focus = (ascii_word && small && ((n <= 3 && matches!(p, "" | "x" | "xy" | "yx" | "xx")) || (n == 4 && p == "xy")))
+                        || (cjk_word && (n <= 2 || p == "日本"))
+                        || (!ascii_word && !cjk_word);
+                    out.push(Cell { bk: BK::Filter, name: name.to_string(), ri, sh: vec![("pat", Value::from(p))], focus });
+                }
+            }
+            let focus2 = (ascii_word && n <= 3 && matches!(p, "" | "xy")) || (cjk_word && n <= 2 && p == "日本") || (!ascii_word && !cjk_word && pl == 2);
+            if has(BK::Filter, "split") {
+                out.push(Cell { bk: BK::Filter, name: "split".into(), ri, sh: vec![("pat", Value::from(p))], focus: focus2 });
+            }
+            if has(BK::Filter, "replace") {
+                out.push(Cell { bk: BK::Filter, name: "replace".into(), ri, sh: vec![("from", Value::from(p)), ("to", Value::from("-"))], focus: focus2 });
+            }
+            for name in ["starting_with", "ending_with", "containing"] {
+                if has(BK::Test, name) {
+                    out.push(Cell { bk: BK::Test, name: name.to_string(), ri, sh: vec![("pat", Value::from(p))], focus: focus2 });
+                }
+            }
+        }
+    }
+    out
+}
+
+/// Reference semantics of the pattern-taking built-ins, written from their documentation with
+/// nothing but prefix/suffix tests on whole patterns: trim_start/trim_end remove whole occurrences
+/// of `pat` while one is there (the empty pattern removes nothing), trim = trim_end after
+/// trim_start, split/replace cut at the leftmost non-overlapping occurrences.
+fn pat_law(name: &str, recv: &Value, sh: &Shape, o: &Outcome<Value>) -> Option<String> {
+    let s = recv.as_str()?;
+    let arg = |k: &str| sh.iter().find(|(n, _)| *n == k).and_then(|(_, v)| v.as_str());
+    fn strip_start<'a>(mut s: &'a str, p: &str) -> &'a str {
+        if p.is_empty() {
+            return s;
+        }
+        while let Some(r) = s.strip_prefix(p) {
+            s = r;
+        }
+        s
+    }
+    fn strip_end<'a>(mut s: &'a str, p: &str) -> &'a str {
+        if p.is_empty() {
+            return s;
+        }
+        while let Some(r) = s.strip_suffix(p) {
+            s = r;
+        }
+        s
+    }
+    fn pieces(s: &str, p: &str) -> Vec<String> {
+        if p.is_empty() {
+            let mut v = vec![String::new()];
+            v.extend(s.chars().map(|c| c.to_string()));
+            v.push(String::new());
+            return v;
+        }
+        let mut out = Vec::new();
+        let mut cur = String::new();
+        let mut rest = s;
+        while !rest.is_empty() {
+            if let Some(r) = rest.strip_prefix(p) {
+                out.push(std::mem::take(&mut cur));
+                rest = r;
+            } else {
+                let c = rest.chars().next().unwrap();
+                cur.push(c);
+                rest = &rest[c.len_utf8()..];
+            }
+        }
+        out.push(cur);
+        out
+    }
+    let expected: Value = match name {
+        "trim" | "trim_start" | "trim_end" => {
+            if sh.iter().any(|(k, _)| *k != "pat") {
+                return None;
+            }
+            let p = arg("pat")?;
+            let r = match name {
+                "trim_start" => strip_start(s, p),
+                "trim_end" => strip_end(s, p),
+                _ => strip_end(strip_start(s, p), p),
+            };
+            Value::from(r)
+        }
+        "split" => Value::from(pieces(s, arg("pat")?).into_iter().map(Value::from).collect::<Vec<_>>()),
+        "replace" => Value::from(pieces(s, arg("from")?).join(arg("to")?)),
+        _ => return None,
+    };
+    match o {
+        Outcome::Ok(v) if *v == expected => None,
+        Outcome::Ok(v) => Some(format!("`{name}` of {s:?} with {:?} returned {v:?}, expected {expected:?} (whole occurrences of the pattern only)",
+            sh.iter().map(|(k, v)| format!("{k}={v:?}")).collect::<Vec<_>>())),
+        Outcome::Err(_, m) => Some(format!("`{name}` with valid string arguments failed: {m}")),
+        Outcome::Panic(_) => None,
+    }
+}
+
 /// filters whose result depends on the characters of a string receiver
 const STRINGISH: &[&str] = &["safe", "upper", "lower", "wordcount", "escape_html", "escape_xml", "newlines_to_br", "trim",
     "trim_start", "trim_end", "capitalize", "title", "indent", "str", "int", "length", "reverse", "pluralize"];
@@ -838,6 +987,8 @@ fn main() {
     let mut recvs = receivers();
     let lb_start = recvs.len();
     recvs.extend(lead_byte_receivers());
+    let sweep_start = recvs.len();
+    recvs.extend(pattern_sweep_receivers());
 
     if let Some(rp) = &args.replay {
         let r: serde_json::Value = serde_json::from_str(&std::fs::read_to_string(rp).expect("replay file")).expect("json");
@@ -882,7 +1033,7 @@ fn main() {
                 }
             } else {
                 for sh in &shs {
-                    for ri in 0..recvs.len() {
+                    for ri in 0..sweep_start {
                         // the lead-byte strings meet every built-in without kwargs only (plus focus_cells)
                         if ri >= lb_start && !sh.is_empty() {
                             continue;
@@ -903,7 +1054,8 @@ fn main() {
             let names = match bk { BK::Filter => &filters, BK::Test => &tests, BK::Function => &functions };
             names.iter().any(|n| n == name) && !(arith_child && !ARITH.contains(&name))
         };
-        cells.extend(focus_cells(&recvs, lb_start, &has));
+        cells.extend(focus_cells(&recvs[..sweep_start], lb_start, &has));
+        cells.extend(pattern_sweep_cells(&recvs, sweep_start, &has));
     }
 
     if arith_child {
@@ -989,6 +1141,14 @@ fn main() {
             meta.oracle_checks += 1;
             if let Some((kf, what)) = range_law(&c.sh, &o).filter(|(kf, _)| bump(&mut kf_counts, kf)) {
                 meta.oracle_fail(&format!("range: {what}"), Some(kf), cell_desc(c, recv, &o));
+            }
+        }
+        if c.bk == BK::Filter && matches!(c.name.as_str(), "trim" | "trim_start" | "trim_end" | "split" | "replace") && !c.sh.is_empty() {
+            meta.oracle_checks += 1;
+            if let Some(what) = pat_law(&c.name, recv, &c.sh, &o) {
+                if bump(&mut kf_counts, "law:pattern") {
+                    meta.oracle_fail(&what, None, cell_desc(c, recv, &o));
+                }
             }
         }
         if c.bk == BK::Filter && c.name == "truncate" {
